@@ -40,6 +40,7 @@ def run(ctx):
     ctx.rule('C20-R1', 'log2i<IntT> for the 8 integer types: result = (W-1) - clz(v) with W the bit width of the builtin\'s parameter, v widened without loss, never routed through a floating type narrower than IntT; gcd is the Euclid loop', 16)
     ctx.rule('C20-R2', 'Vector2/3/4: every binary and compound operator is component-wise with its own operator token; == conjoins all components; < is the lexicographic ladder; dot/norm2 sum like-indexed products; cross has the cyclic pattern; at(i) indexes the object as an array of T; Matrix4 element-wise operators likewise', 70)
     ctx.rule('C20-R3', 'Matrix4: M*v uses m[j][i] as the coefficient of v_j in row i; M*N accumulates this.m[z][y]*other.m[x][z] into res.m[x][y]; transposition swaps indices; invert applies every row operation to both matrices over all four columns', 12)
+    ctx.rule('C20-R5', 'random_data: every copy writes through the one destination cursor the refill loop advances; each turn copies, subtracts and advances by the same amount before refilling; the tail takes exactly the remaining bytes from the pool', 3)
     ctx.rule('C20-R4', 'random_int: every return is low + (U % range) with U an unsigned random value at least as wide as the range class chosen by the thresholds', 5)
     w = ctx.unit(witness_unit('c20.cc'))
     ur = ctx.unit(repo_unit('Random.cc'))
@@ -222,6 +223,22 @@ def run(ctx):
         loops = [lp for lp in walk(body_of(mm[0])) if lp.get('kind') == 'ForStmt']
         okm = okm and len(loops) == 3 and all(N(for_parts(lp)[2]).endswith('< 4)') and int_value(kids(next(v for v in walk(for_parts(lp)[0]) if v.get('kind') == 'VarDecl'))[-1]) == 0 for lp in loops)
         ctx.check(okm, R, 'Matrix4<%s>|M*N|index-convention' % T, mm[0], 'res.m[x][y] = sum_z this.m[z][y] * other.m[x][z] (same convention as M*v, so (AB)v = A(Bv))', 'M*N index pattern changed: %s' % [N(x['inner'][1]) for x in acc])
+        # M *= N: the product is formed apart from *this (so that m *= m, where `other` IS *this,
+        # reads only original entries), then assigned
+        mme = [f for f in ms.get('operator*=', []) if 'Matrix4' in (qtype(params_of(f)[0]) or '')]
+        ctx.require(len(mme) == 1, '%s::operator*=(const Matrix4&) not found' % cls)
+        fb = body_of(mme[0])
+        delegates = [c for c in walk(fb) if c.get('kind') == 'CXXOperatorCallExpr' and call_name(c) == 'operator*' and (callee_decl(c, w) or {}).get('mangledName') == mm[0].get('mangledName')]
+        writes = [x for x in walk(fb) if x.get('kind') in ('BinaryOperator', 'CompoundAssignOperator') and x.get('opcode', '').endswith('=') and x.get('opcode') not in ('==', '!=', '<=', '>=') and N(x['inner'][0]).startswith('this.m[')]
+        reads_other = [x for x in walk(fb) if x.get('kind') == 'ArraySubscriptExpr' and N(x).startswith('other.m[') and N(x).count('[') == 2]
+        hazard = None
+        for wr in writes:
+            for rd_ in reads_other:
+                if N(rd_) != N(wr['inner'][0]).replace('this.', 'other.'):
+                    hazard = (wr, rd_)
+        okd = (len(delegates) == 1 and not writes) or (not delegates and hazard is None and bool(writes))
+        ctx.check(okd and hazard is None, R, 'Matrix4<%s>|M*=N|no-aliasing-hazard' % T, hazard[0] if hazard else mme[0], 'the product is computed by operator* into a separate matrix and then assigned',
+                  'operator*= writes `%s` while `%s` is still to be read: when the argument is the matrix itself (m *= m) later rows are computed from already overwritten entries' % ((N(hazard[0]['inner'][0]), N(hazard[1])) if hazard else ('?', '?')))
         tr = ms.get('transposition', [None])[0]
         if tr is not None:
             st = [N(x) for x in walk(body_of(tr)) if x.get('kind') == 'BinaryOperator' and x.get('opcode') == '=']
@@ -277,4 +294,65 @@ def run(ctx):
                 ok = is_range and ui is not None and not ui[1] and ui[0] >= need_bits
                 why = 'random source %s (%s bits%s) for a range of up to %s' % (ut, ui[0] if ui else '?', ', signed' if ui and ui[1] else '', lim if lim is not None else '2^63')
         ctx.check(ok, R, 'random_int|return#%d' % i, r, 'low + (unsigned random %% range)', 'random_int can return a value outside [low, high]: %s' % why)
-    ctx.note('Vector classes instantiated for int64_t (all members) and double (cross, dot, <); Matrix4 for int64_t and double. Not decided: reduce_fraction coprimality, inverse accuracy, random_data fill accounting.')
+    # ---------------- R5 random_data: one destination cursor, advanced by what was copied
+    R = 'C20-R5'
+    rdf = next((f for f in ur.func('phosg::random_data') if len(params_of(f)) == 2), None)
+    ctx.require(rdf is not None, 'random_data(void*, size_t) not found')
+    ctx.fn('random_data')
+    rb = body_of(rdf)
+
+    def root_var(e):
+        e = strip(e)
+        while e is not None and e.get('kind') in ('CStyleCastExpr', 'CXXReinterpretCastExpr', 'CXXStaticCastExpr', 'ImplicitCastExpr', 'ParenExpr', 'CXXFunctionalCastExpr') and kids(e):
+            e = strip(kids(e)[0])
+        return ref_decl(e) if e is not None and e.get('kind') == 'DeclRefExpr' else None
+    copies = [c for c in walk(rb) if c.get('kind') == 'CallExpr' and call_name(c) in ('memcpy', 'memmove')]
+    ctx.require(len(copies) >= 1, 'random_data: no memcpy found')
+    dsts = [root_var(call_args(c)[0]) for c in copies]
+    advs = []
+    for x in walk(rb):
+        if x.get('kind') in ('BinaryOperator', 'CompoundAssignOperator') and x.get('opcode') in ('=', '+=') and '*' in (dtype(x['inner'][0]) or '') and ref_decl(x['inner'][0]):
+            advs.append(x)
+    loops = [x for x in walk(rb) if x.get('kind') == 'WhileStmt']
+    adv_vars = {ref_decl(a['inner'][0])['id'] for a in advs if any(a in list(walk(lp)) for lp in loops)}
+    okc = all(d is not None for d in dsts) and len({d['id'] for d in dsts if d}) == 1 and ({d['id'] for d in dsts if d} == adv_vars or not loops)
+    ctx.check(okc, R, 'random_data|single-destination-cursor', copies[-1], 'every copy writes through the cursor that the refill loop advances',
+              'copies write through %s while the loop advances %s: after a refill the remaining bytes land at the wrong place and part of the request is never written' % (sorted({(d or {}).get('name', '?') for d in dsts}), sorted({(unit_name(a)) for a in advs})))
+    if loops:
+        lp = loops[0]
+        lcopy = [c for c in copies if any(c is y for y in walk(lp))]
+        okl = len(lcopy) == 1
+        why = 'expected one copy in the refill loop'
+        if okl:
+            n_ = nf(call_args(lcopy[0])[2])
+            srcn = nf(call_args(lcopy[0])[1])
+            subs = [nf(x['inner'][1]) for x in walk(lp) if x.get('kind') == 'CompoundAssignOperator' and x.get('opcode') == '-=' and (ref_decl(x['inner'][0]) or {}).get('id') == params_of(rdf)[1]['id']]
+            adva = []
+            for a in advs:
+                if any(a is y for y in walk(lp)):
+                    if a.get('opcode') == '+=':
+                        adva.append(nf(a['inner'][1]))
+                    else:
+                        e = strip(a['inner'][1])
+                        while e.get('kind') in ('CStyleCastExpr', 'CXXReinterpretCastExpr', 'CXXStaticCastExpr', 'ParenExpr') and kids(e):
+                            e = strip(kids(e)[0])
+                        adva.append(nf(e['inner'][1]) if e.get('kind') == 'BinaryOperator' and e.get('opcode') == '+' else '?')
+            refill = [x for x in walk(lp) if x.get('kind') == 'CXXOperatorCallExpr' and call_name(x) == 'operator=' and nf(kids(x)[1]) == srcn.replace('.data()', '')]
+            order = bool(refill) and all(y.get('_off', 0) < refill[0].get('_off', 0) for y in [lcopy[0]] + [a for a in advs if any(a is z for z in walk(lp))])
+            okl = subs == [n_] and adva == [n_] and order and nf(while_parts(lp)[0]) == '(%s < bytes)' % n_
+            why = 'loop copies %s bytes, subtracts %s, advances by %s, refill-after-accounting=%s, condition %s' % (n_, subs, adva, order, nf(while_parts(lp)[0]))
+        ctx.check(okl, R, 'random_data|refill-accounting', lp, 'each turn copies the whole pool, subtracts and advances by the same amount, then refills', 'the refill loop accounting is inconsistent: ' + why)
+    tail = [c for c in copies if not any(c is y for lp in loops for y in walk(lp))]
+    okt = len(tail) == 1
+    why = 'expected one copy after the loop'
+    if okt:
+        a = call_args(tail[0])
+        rs = [c for c in walk(rb) if c.get('kind') == 'CXXMemberCallExpr' and call_name(c) == 'resize' and c.get('_off', 0) > tail[0].get('_off', 0)]
+        okt = nf(a[2]) == 'bytes' and nf(a[1]) in ('(-bytes + buffer.data() + buffer.size())', '((buffer.data() + buffer.size()) - bytes)', '(buffer.data() + (buffer.size() - bytes))') and len(rs) == 1 and nf(call_args(rs[0])[0]) == '(buffer.size() - bytes)'
+        why = 'tail copies %s bytes from %s, then resize(%s)' % (nf(a[2]), nf(a[1]), nf(call_args(rs[0])[0]) if rs else '?')
+    ctx.check(okt, R, 'random_data|tail', tail[0] if tail else rdf, 'the remaining bytes come from the end of the pool and are removed from it', 'the final copy does not take exactly the remaining bytes from the pool and drop them: ' + why)
+    ctx.note('Vector classes instantiated for int64_t (all members) and double (cross, dot, <); Matrix4 for int64_t and double. Not decided: reduce_fraction coprimality, inverse accuracy.')
+
+
+def unit_name(a):
+    return (ref_decl(a['inner'][0]) or {}).get('name', '?')
